@@ -1,5 +1,4 @@
 import Cppcms.C10.Ideal
-import Cppcms.C07.Props
 /-!
 # C10 — the coherence theorems over the message-level transport
 (`Props.lean` transfers them to the wire-level model with `step_eq_astep`.)
